@@ -129,7 +129,9 @@ def check_net(net, spec):
                         fail("C10:pump-feed-temperature", "circulation pump imposes its flow temperature", junction=j,
                              reported=float(tj.at[j]), feed=float(t.at[idx, "t_flow_k"]))
     # ---- bounds (no heat sources) --------------------------------------------------------------------------
-    sources = any((e["qext_w"] or 0) < 0 for e in spec["heat_consumers"]) or any(e["qext_w"] < 0 for e in spec["heat_exchangers"])
+    # a negative duty or a negative temperature difference is a heat source (the fluid leaves warmer than it entered)
+    sources = any((e["qext_w"] or 0) < 0 or (e.get("deltat_k") or 0) < 0 for e in spec["heat_consumers"]) or \
+        any(e["qext_w"] < 0 for e in spec["heat_exchangers"])
     if not sources:
         amb = [p["text_k"] for p in spec["pipes"]] + [net["_options"]["ambient_temperature"]]
         feeds = [e["t_k"] for e in spec["ext_grids"] if e["in_service"]] + [e["t_flow_k"] for t in ("circ_pumps_p", "circ_pumps_m")
